@@ -1,5 +1,5 @@
 """Helpers shared by the rule modules."""
-import collections
+import collections, os, re
 from core import *
 
 
@@ -97,3 +97,73 @@ def func_writes_var(f, P, gkeys):
         if k in gkeys:
             return True
     return False
+
+
+PRINTF_FAMILY = {'printf': 0, 'fprintf': 1, 'sprintf': 1, 'snprintf': 2, 'as_snprintf': 2, 'as_sprcatf': 2,
+                 'as_sdprintf': 1, 'as_sdprcatf': 1}
+
+
+def format_lint(facts, unit_names):
+    """A9: clang's printf-family format/argument checker on the given units
+    (-fsyntax-only; nothing is executed).  Returns {unit: [(line, message)]}."""
+    import subprocess
+    from concurrent.futures import ThreadPoolExecutor
+    inc = os.path.join(facts.dir, 'include')
+
+    def one(un):
+        cmd = ['clang', '-fsyntax-only', '-std=c11', '-I' + REPO, '-I' + inc, '-DLIBDIR="x"', '-Wno-everything',
+               '-Wformat', '-Wformat-extra-args', '-Wformat-insufficient-args', '-Wformat-zero-length',
+               '-Wformat-invalid-specifier', '-fno-color-diagnostics', '-fno-caret-diagnostics',
+               os.path.join(REPO, un)]
+        r = subprocess.run(cmd, stdout=subprocess.PIPE, stderr=subprocess.STDOUT, text=True)
+        out = []
+        for ln in r.stdout.splitlines():
+            m = re.match(r'(.*?):(\d+):\d+: (warning|error): (.*)$', ln)
+            if m:
+                if m.group(3) == 'error':
+                    raise AnalysisBroken('clang -fsyntax-only failed on %s: %s' % (un, ln))
+                if os.path.basename(m.group(1)) == un and any(k in m.group(4) for k in (
+                        'data argument not used', 'conversions than data arguments', 'invalid conversion specifier',
+                        'incomplete format specifier', 'format string is empty', 'format string is not a string literal')):
+                    out.append((int(m.group(2)), m.group(4)))
+        return un, out
+    res = {}
+    with ThreadPoolExecutor(max_workers=8) as ex:
+        for un, out in ex.map(one, unit_names):
+            res[un] = out
+    return res
+
+
+def format_rule(chk, facts, rule, unit_names):
+    """One obligation per printf-family call in the units; violated when
+    clang reports a format/argument mismatch on the call's lines."""
+    diags = format_lint(facts, unit_names)
+    n = 0
+    for un in unit_names:
+        u = facts.unit(un)
+        dl = diags.get(un, [])
+        used = set()
+        for f in u.funcs.values():
+            if f.file != un:
+                continue
+            for b, i, ln, node in f.calls(set(PRINTF_FAMILY)):
+                fi = PRINTF_FAMILY[callee_name(node)]
+                fmt = nocast(node[2][fi]) if fi < len(node[2]) else None
+                fs = fmt[1] if isinstance(fmt, tuple) and fmt and fmt[0] == 's' else show(fmt) if fmt else '?'
+                hit = [(l, m) for (l, m) in dl if ln <= l <= ln + 6 and (l, m) not in used]
+                # attribute a diagnostic to the nearest preceding call
+                mine = []
+                for (l, m) in hit:
+                    later = [x for b2, i2, l2, x in f.calls(set(PRINTF_FAMILY)) if ln < l2 <= l]
+                    if not later:
+                        mine.append((l, m))
+                        used.add((l, m))
+                n += 1
+                key = '%s:%s:%s(%s)' % (un, f.name, callee_name(node), fs[:40])
+                chk.ob(rule, key, not mine, f.loc(ln),
+                       'format and arguments agree' if not mine else
+                       '; '.join('%s (line %d)' % (m, l) for l, m in mine))
+        for (l, m) in dl:
+            if (l, m) not in used:
+                chk.ob(rule, '%s:line-diagnostic:%s' % (un, m[:40]), False, '%s:%d' % (un, l), m)
+    return n
